@@ -6,7 +6,7 @@ set -u
 PID=$1; DIR=$2; K=$3; TIER=${4:-quick}
 WT=$(mktemp -d /tmp/seedwt.XXXXXX); rmdir $WT
 git -C /repo worktree add -q --detach $WT HEAD || exit 9
-cleanup() { git -C /repo worktree remove --force $WT 2>/dev/null; git -C /repo checkout -- . 2>/dev/null; }
+cleanup() { git -C /repo worktree remove --force $WT 2>/dev/null; if [ "${SEED_IN_REPO:-0}" = "1" ]; then git -C /repo checkout -- . 2>/dev/null; fi; }
 trap cleanup EXIT
 cd $WT
 PYTHONPATH=$WT /venv/bin/python $DIR/demo_$K.py $WT >/dev/null 2>&1; D0=$?
@@ -15,9 +15,14 @@ PYTHONPATH=$WT /venv/bin/python -m pytest -q -p no:cacheprovider tests 2>&1 | ta
 PYTHONPATH=$WT /venv/bin/python $DIR/demo_$K.py $WT >/tmp/seed_demo.txt 2>&1; D1=$?
 echo "clean-demo-exit=$D0 changed-demo-exit=$D1 tests: $(cat /tmp/seed_tests.txt)"
 cd /verif
-git -C /repo apply $DIR/change_$K.diff || { echo "patch does not apply to /repo"; exit 9; }
 START=$(date +%s)
-./vcheck $PID --tier $TIER > /tmp/seed_check.txt 2>&1; RC=$?
-git -C /repo checkout -- .
+if [ "${SEED_IN_REPO:-0}" = "1" ]; then
+  git -C /repo apply $DIR/change_$K.diff || { echo "patch does not apply to /repo"; exit 9; }
+  ./vcheck $PID --tier $TIER > /tmp/seed_check_$PID.txt 2>&1; RC=$?
+  git -C /repo checkout -- .
+else
+  # same check, pointed at the scratch worktree that carries the change (leaves /repo untouched)
+  VERIF_REPO=$WT VERIF_EVIDENCE_DIR=/tmp/seed_evidence ./vcheck $PID --tier $TIER > /tmp/seed_check_$PID.txt 2>&1; RC=$?
+fi
 echo "check-exit=$RC wall=$(( $(date +%s) - START ))s"
-grep -E "VIOLATION|key:|INCONCLUSIVE|^$PID" /tmp/seed_check.txt | head -8 | cut -c1-260
+grep -E "VIOLATION|key:|INCONCLUSIVE|^$PID" /tmp/seed_check_$PID.txt | head -8 | cut -c1-260
